@@ -70,6 +70,7 @@ pub enum K {
     ScopeBurst,
     Collect,
     UnwindScope,
+    Twin,
 }
 
 #[derive(Clone)]
@@ -410,6 +411,18 @@ const W_OVERLOAD: &[(K, u64)] = &[
     (K::Join, 2),
 ];
 
+const W_TWINS: &[(K, u64)] = &[
+    (K::Root, 10),
+    (K::Noop, 2),
+    (K::Child, 8),
+    (K::Finish, 8),
+    (K::Twin, 40),
+    (K::Cycle, 8),
+    (K::Flush, 2),
+    (K::Exit, 1),
+    (K::Join, 1),
+];
+
 const W_SETS: &[(K, u64)] = &[
     (K::Root, 8),
     (K::Child, 10),
@@ -571,6 +584,20 @@ pub fn profile(prop: &str) -> Profile {
             warm_pct: 60,
             exit_after_finish_pct: 30,
             live_tail: false,
+            ..b
+        },
+        "C15" => Profile {
+            prop: "C15",
+            callers: (0, 2),
+            ops: (10, 50),
+            cancelable_pct: 0,
+            weights: W_TWINS,
+            ring_caps: &[(0, 1)],
+            unsampled_pct: 20,
+            multi_parent_pct: 30,
+            atomic_pct: 30,
+            live_tail: false,
+            stall_pct: 0,
             ..b
         },
         "C13" => Profile {
@@ -1153,6 +1180,16 @@ impl<'a> Gen<'a> {
                 }
                 let slot = *self.rng.pick(&live);
                 self.push(t, Op::UnwindScope { slot })
+            }
+            K::Twin => {
+                if depth != 0 {
+                    return false;
+                }
+                let live = self.live_spans();
+                let slot = if live.is_empty() || self.rng.pct(12) { None } else { Some(*self.rng.pick(&live)) };
+                let f = self.rng.below(crate::corpus::NTWINS as u64) as u8;
+                let arg = (self.ops.len() as u32) * 8 + self.rng.below(8) as u32;
+                self.push(t, Op::Twin { f, arg, slot })
             }
             K::TeardownLate => self.push(t, Op::TeardownCalls { early: false }),
             K::LocalBurst => {
